@@ -279,6 +279,21 @@ def main():
             if not res["ok"]:
                 concrete, text = classify(pid, res)
                 failures.append((sname, res, concrete, text))
+    # ---- step-level suites (strace: kill points, torn writes, injected errnos, path audit)
+    step_stats, step_failures = {}, []
+    for sname, sfun in spec.get("step_suites", []):
+        for fl in flavours:
+            try:
+                r = sfun(fl, tier, random.Random(rng.getrandbits(64)))
+            except Exception:
+                r = {"runs": 0, "skipped": 0, "dist": {}, "failures": [{"concrete": False, "text": "step suite crashed: " + traceback.format_exc()[-800:], "replay": {}}]}
+            step_stats[f"{sname}:{fl}"] = {k: v for k, v in r.items() if k != "failures"}
+            stats["programs"] += r["runs"]
+            stats["by_suite"][sname] = stats["by_suite"].get(sname, 0) + r["runs"]
+            stats["by_flavour"][fl] = stats["by_flavour"].get(fl, 0) + r["runs"]
+            for f in r["failures"]:
+                step_failures.append((sname, fl, f))
+    stats["step"] = step_stats
     # ---- verdict
     known = load_known()
     violations, known_hits = [], []
@@ -296,6 +311,18 @@ def main():
                    "broken_tie": None if concrete else f"correspondence suite {sname} (model vs implementation)"},
                   open(path, "w"), indent=1, default=str)
         violations.append((path, concrete, text))
+    for sname, fl, f in step_failures[:50]:
+        sig = f"{sname} {f['text']}"
+        k = next((d for (p, rx, d) in known if p == pid and rx.search(sig)), None)
+        if k is not None:
+            known_hits.append(k)
+            continue
+        path = f"{OUT}/replays/{pid}-{hashlib.sha256(json.dumps(f['replay'], sort_keys=True, default=str).encode()).hexdigest()[:16]}.json"
+        json.dump({"property": pid, "suite": sname, "seed": seed, "tier": tier, "flavours": [fl], "step_level": f["replay"],
+                   "concrete_failing_input": f["concrete"], "explanation": f["text"],
+                   "broken_tie": None if f["concrete"] else f"step correspondence {sname} (model crash/fault states vs the traced implementation)"},
+                  open(path, "w"), indent=1, default=str)
+        violations.append((path, f["concrete"], f["text"]))
     if gate["problems"]:
         path = f"{OUT}/replays/{pid}-coq-gate.json"
         json.dump({"property": pid, "broken_tie": "Coq gate", "theorems": gate["theorems"], "problems": gate["problems"],
@@ -345,6 +372,7 @@ def write_evidence(pid, tier, seed, spec, gate, stats, seen, samples, violations
             "flavours": flavours,
             "by_suite": stats["by_suite"], "by_flavour": stats["by_flavour"],
             "result_class_distribution": dict(sorted(stats["classes"].items(), key=lambda kv: -kv[1])[:60]),
+            "step_level": stats.get("step", {}),
             "exhaustive": False,
         },
         "assumptions": spec.get("assumptions", []) + S.COMMON_ASSUMPTIONS,
